@@ -521,7 +521,7 @@ func runC12(c *core.Case) *core.Result {
 			defer side.Done()
 			for _, x := range clients[:minInt(3, len(clients))] {
 				out := bed.Guard(10e9, func(ctx context.Context) error {
-					_, err := w.b.Svc.ProcessClient(ctx, proto.Clone(model.NewClientMessage(x.cl.Model)).(*model.ClientMessage))
+					_, err := w.b.Svc.ProcessClient(ctx, x.cl.ClientMessage())
 					return err
 				})
 				if out.Panic != "" {
